@@ -99,10 +99,16 @@ class Parser:
     def process(self, string: str, version: int = -1) -> Circuit:
         string = string.strip()
 
+        # The empty circuit may also be written with white space
+        # (e.g., "[ ]" or "!V=1! []") just like any other circuit.
+        compact: str = "".join(string.split())
         if (
-            string == ""
-            or string == "[]"
-            or (string.startswith("!") and string[string.find("!", 1) + 1:] == "[]")
+            compact == ""
+            or compact == "[]"
+            or (
+                compact.startswith("!")
+                and compact[compact.find("!", 1) + 1:] == "[]"
+            )
         ):
             self.push_stack(Series([]))
         else:
